@@ -21,9 +21,15 @@ def base_array(n):
         s = n.n('sub'); c = guards.const_of(s.n('idx'))
         if c is None: return None, None
         off += c; n = guards.strip_casts(s.n('base'))
-    if n is not None and n.k == 'ref' and n.dk == 'local' and '[' in (n.type or n.d.get('decltype') or ''):
+    if n is not None and n.k == 'ref' and n.dk in ('local', 'param') and '[' in (n.d.get('decltype') or n.type or ''):
         return n, off
     return None, None
+
+
+def _ptr_param(n, g):
+    n = guards.strip_casts(n)
+    while n is not None and n.k == 'binop' and n.op == '+': n = guards.strip_casts(n.n('lhs'))
+    return n is not None and n.k == 'ref' and n.dk == 'param' and '[' not in (n.type or '')
 
 
 def array_len(ref):
@@ -51,71 +57,76 @@ def run(facts, rep, tier):
     cfg = f.cfg
     pm = common.parent_map(f)
     # ---- LO.1 ----------------------------------------------------------------------------------------------------------
-    arrays = {}
-    for n in f.nodes():
-        if n.k == 'decl':
-            for v in n.vars:
-                if '[' in v['ctype'] and v['ctype'].split('[')[0].strip() in ('char', 'unsigned char', 'signed char'):
-                    arrays[v['decl']] = (v, n)
-    no_buffer = False
-    if not arrays:
-        # no fixed-size buffer in get(): LO.1 holds if none exists in the helpers it calls either and nothing copies raw bytes
-        seen = {}; work = [f]
-        while work:
-            g = work.pop()
-            if g.name in seen or len(seen) > 40: continue
-            seen[g.name] = g
-            for n in g.nodes():
-                if n.k == 'call' and n.callee_in_root:
-                    for t in facts.resolve(n):
-                        if t.file.endswith('LocaleInfo.cpp'): work.append(t)
-        arr2 = [(g, v) for g in seen.values() for n in g.nodes() if n.k == 'decl' for v in n.vars if '[' in v['ctype'] and v['ctype'].split('[')[0].strip() in ('char', 'unsigned char', 'signed char') and not v['ctype'].startswith('const')]
-        raw = [(g, n) for g in seen.values() for n in g.nodes() if n.k == 'call' and (n.calleeq or '').split('::')[-1] in set(WRITERS) | UNBOUNDED]
-        if not arr2 and not raw:
-            no_buffer = True
-            rep.ok('LO.1', f'no fixed-size character buffer is declared and no raw byte writer (memcpy / strcpy / …) is called in get() or the {len(seen) - 1} helper(s) it reaches: nothing can be overrun', f.shortloc())
-        else:
-            g0, x0 = (arr2 or raw)[0]
-            rep.inconclusive('LO.1', 'local buffer', g0.shortloc(), f'the fixed-size buffer / raw writer moved into the helper {g0.name}: the guard analysis is written for get() itself')
+    # get() and every helper of LocaleInfo.cpp it reaches are scanned alike: local character arrays and parameters of type
+    # reference-to-array (`char (&)[N]`) are the buffers; a raw writer whose destination is a plain pointer parameter is not followed
+    scope = {}; work = [f]
+    while work:
+        g = work.pop()
+        if g.name in scope or len(scope) > 40: continue
+        scope[g.name] = g
+        for n in g.nodes():
+            if n.k == 'call' and n.callee_in_root:
+                for t in facts.resolve(n):
+                    if t.file.endswith('LocaleInfo.cpp') and t.cfg is not None: work.append(t)
+    is_chararr = lambda ct: '[' in ct and ct.split('[')[0].replace('(&)', '').strip() in ('char', 'unsigned char', 'signed char')
+    arrays = {}          # decl id -> function (get() and helpers)
+    for g in scope.values():
+        for n in g.nodes():
+            if n.k == 'decl':
+                for v in n.vars:
+                    if is_chararr(v['ctype']): arrays[v['decl']] = g
+        for p_ in g.d['params']:
+            if is_chararr(p_['ctype']): arrays[p_['decl']] = g
     nw = 0
-    for n in f.nodes():
-        if n.k != 'call': continue
-        base = (n.calleeq or '').split('::')[-1]
-        args = n.ns('args')
-        if base in UNBOUNDED and args:
-            arr, off = base_array(args[0])
-            if arr is not None:
-                nw += 1
-                rep.violation('LO.1', f'{base}() into {arr.name}', n.shortloc(), f'{base} writes an unbounded number of bytes into {arr.name}[{array_len(arr)}]', key=f'LO.1|unbounded|{base}', fn=f.name)
-            continue
-        if base not in WRITERS: continue
-        di, li = WRITERS[base]
-        if len(args) <= max(di, li) or args[di] is None: continue
-        arr, off = base_array(args[di])
-        if arr is None: continue
-        nw += 1
-        size = array_len(arr)
-        L = args[li]
-        need_term = base in ('memcpy', 'memmove', 'strncpy') and not _is_fill(n)
-        limit = size - off - (1 if need_term else 0)
-        label = f'{base}({arr.name}{"+" + str(off) if off else ""}, …, {L.text()[:40]})'
-        c = guards.const_of(L)
-        if c is not None:
-            rep.check(0 <= c <= limit, 'LO.1', f'{label}: constant length {c} <= {limit}', n.shortloc(), f'writes {c} bytes into {arr.name}[{size}] (at most {limit} allowed here)', key=f'LO.1|const|{base}|{n.line - f.line}', fn=f.name)
-            continue
-        ok, why = bounded(f, n, L, limit)
-        rep.check(ok, 'LO.1', f'{label}: length is bounded by a dominating guard (<= {limit}, non-negative)', n.shortloc(), why, key=f'LO.1|guard|{base}|{guards.strip_casts(L).text()[:40]}', fn=f.name)
-    for n in f.nodes():
-        if n.k == 'binop' and n.op == '=' and n.n('lhs') is not None and n.n('lhs').k == 'subscript':
-            b = guards.strip_casts(n.n('lhs').n('base'))
-            if b is not None and b.k == 'ref' and b.decl in arrays:
-                nw += 1
-                idx = n.n('lhs').n('idx'); c = guards.const_of(idx); size = array_len(b)
-                if c is not None: rep.check(0 <= c < size, 'LO.1', f'{b.name}[{c}] = …', n.shortloc(), f'index {c} outside {b.name}[{size}]', key=f'LO.1|idx|{c}', fn=f.name)
-                else:
-                    ok, why = bounded(f, n, idx, size - 1)
-                    rep.check(ok, 'LO.1', f'{b.name}[{idx.text()[:30]}] = …: index bounded', n.shortloc(), why, key=f'LO.1|idxguard|{idx.text()[:30]}', fn=f.name)
-    if not no_buffer and arrays: rep.floor('writes into the local buffer', nw, 3)
+    if not arrays:
+        raw = [(g, n) for g in scope.values() for n in g.nodes() if n.k == 'call' and (n.calleeq or '').split('::')[-1] in set(WRITERS) | UNBOUNDED]
+        if not raw:
+            rep.ok('LO.1', f'no fixed-size character buffer is declared and no raw byte writer (memcpy / strcpy / …) is called in get() or the {len(scope) - 1} helper(s) it reaches: nothing can be overrun', f.shortloc())
+        else:
+            rep.inconclusive('LO.1', 'raw writer', raw[0][1].shortloc(), f'{raw[0][0].name} writes raw bytes through a pointer whose extent is not a fixed-size array: the guard analysis does not apply')
+    for g in scope.values():
+        for n in g.nodes():
+            if n.k != 'call': continue
+            base = (n.calleeq or '').split('::')[-1]
+            args = n.ns('args')
+            if base in UNBOUNDED and args:
+                arr, off = base_array(args[0])
+                if arr is not None:
+                    nw += 1
+                    rep.violation('LO.1', f'{base}() into {arr.name}', n.shortloc(), f'{base} writes an unbounded number of bytes into {arr.name}[{array_len(arr)}]', key=f'LO.1|unbounded|{base}', fn=g.name)
+                elif args[0] is not None and _ptr_param(args[0], g): rep.inconclusive('LO.1', f'{base}() in {g.name}', n.shortloc(), 'unbounded writer through a pointer parameter: what it points to is not followed')
+                continue
+            if base not in WRITERS: continue
+            di, li = WRITERS[base]
+            if len(args) <= max(di, li) or args[di] is None: continue
+            arr, off = base_array(args[di])
+            if arr is None:
+                if _ptr_param(args[di], g) and arrays: rep.inconclusive('LO.1', f'{base}() in {g.name}', n.shortloc(), 'the destination is a pointer parameter: which buffer it designates, and how large it is, is not followed into the helper')
+                continue
+            nw += 1
+            size = array_len(arr)
+            L = args[li]
+            need_term = base in ('memcpy', 'memmove', 'strncpy') and not _is_fill(n)
+            limit = size - off - (1 if need_term else 0)
+            label = f'{base}({arr.name}{"+" + str(off) if off else ""}, …, {L.text()[:40]})' + ('' if g is f else f' in {g.name.split("::")[-1][:30]}')
+            c = guards.const_of(L)
+            if c is not None:
+                rep.check(0 <= c <= limit, 'LO.1', f'{label}: constant length {c} <= {limit}', n.shortloc(), f'writes {c} bytes into {arr.name}[{size}] (at most {limit} allowed here)', key=f'LO.1|const|{base}|{n.line - g.line}', fn=g.name)
+                continue
+            ok, why = bounded(g, n, L, limit)
+            rep.check(ok, 'LO.1', f'{label}: length is bounded by a dominating guard (<= {limit}, non-negative)', n.shortloc(), why, key=f'LO.1|guard|{base}|{guards.strip_casts(L).text()[:40]}', fn=g.name)
+        for n in g.nodes():
+            if n.k == 'binop' and n.op == '=' and n.n('lhs') is not None and n.n('lhs').k == 'subscript':
+                b = guards.strip_casts(n.n('lhs').n('base'))
+                if b is not None and b.k == 'ref' and b.decl in arrays:
+                    nw += 1
+                    idx = n.n('lhs').n('idx'); c = guards.const_of(idx); size = array_len(b)
+                    if c is not None: rep.check(0 <= c < size, 'LO.1', f'{b.name}[{c}] = …', n.shortloc(), f'index {c} outside {b.name}[{size}]', key=f'LO.1|idx|{c}', fn=g.name)
+                    else:
+                        ok, why = bounded(g, n, idx, size - 1)
+                        rep.check(ok, 'LO.1', f'{b.name}[{idx.text()[:30]}] = …: index bounded', n.shortloc(), why, key=f'LO.1|idxguard|{idx.text()[:30]}', fn=g.name)
+    if arrays and len(scope) == 1: rep.floor('writes into the local buffer', nw, 3)
+    elif arrays: rep.floor('writes into the buffer (get() and helpers)', nw, 1)
     # ---- LO.2 / LO.3 ---------------------------------------------------------------------------------------------------------
     infos = [v for n in f.nodes() if n.k == 'decl' for v in n.vars if v['ctype'].endswith('LocaleInfo::Info')]
     if len(infos) != 1:
@@ -312,6 +323,7 @@ def run(facts, rep, tier):
     nfall += n_helper_fallbacks
     if nfall >= 1 or exact: rep.check(nfall >= 1, 'LO.2', 'a fallback return exists', f.shortloc(), 'no fallback path', key='LO.2|nofallback', fn=f.name)
     _selection_rules(facts, rep, f)
+    _terminator_rules(facts, rep, f)
     # LO.3: table provenance of the non-fallback assignments
     loops = [n for n in f.nodes() if n.k == 'rangefor']
     loopvars = {l.var['decl']: (l.n('range').qname or l.n('range').name if l.n('range') is not None and l.n('range').k == 'ref' else None) for l in loops}
@@ -601,3 +613,139 @@ def _selection_rules(facts, rep, f):
                 allok = False
                 rep.inconclusive('LO.5', inst, r_.shortloc(), f'the comparison is not in a recognised form: {v[1] if len(v) > 1 else v[0]}')
     if allok: rep.floor('selection conditions', n5, 3)
+
+
+# ---- LO.6: what the string functions read from the buffer --------------------------------------------------------------------
+READERS = {'strcmp', 'strcoll', 'strlen', 'strstr', 'strchr', 'strrchr', 'strcasecmp', 'strdup', 'atoi', 'strtol', 'puts', 'fputs', 'printf', 'fprintf'}
+
+
+def _join(a, b):
+    if a == b: return a
+    if a is None: return b
+    if b is None: return a
+    if {a, b} <= {'Z', 'S'}: return 'S'
+    if 'U' in (a, b): return 'U'
+    return 'D'
+
+
+def _buffer_flow(facts, g, bufdecl, entry, size, memo, reads, depth=0):
+    """forward dataflow over g's CFG for one character buffer (a local array, or an array / pointer parameter of a helper).
+    States: Z every byte zero | S one string on a zeroed background (terminated) | ('C', L) L bytes copied over earlier contents, no terminator
+    stored yet | D possibly unterminated / stale tail | U handed to code that is not followed.  Returns the join of the states at g's exits;
+    `reads` collects (node, state, function) for every string read of the buffer."""
+    cfg = g.cfg
+    is_buf = lambda a: a is not None and (lambda r: r[0] is not None and r[0].decl == bufdecl and r[1] == 0)(base_array(a) if _arrayish(a) else (_as_ref(a), 0))
+
+    def transfer(node, st):
+        if node is None: return st
+        if node.k == 'decl':
+            for v in node.vars:
+                if v['decl'] == bufdecl:
+                    init = Node(g.tu, v['init']) if v.get('init') else None
+                    if init is None: return 'D'
+                    i0 = guards.strip_casts(init)
+                    if i0.k == 'str': return 'S' if i0.v else 'Z'
+                    vals = [guards.const_of(x) for x in i0.ns('args')] if i0.k in ('initlist', 'construct') else [None]
+                    return 'Z' if all(c == 0 for c in vals) else 'D'
+            return st
+        if node.k == 'binop' and node.op == '=' and node.n('lhs') is not None and node.n('lhs').k == 'subscript':
+            b = guards.strip_casts(node.n('lhs').n('base'))
+            if b is not None and b.k == 'ref' and b.decl == bufdecl:
+                zero = guards.const_of(node.n('rhs')) == 0
+                if isinstance(st, tuple) and zero and guards.same_expr(node.n('lhs').n('idx'), st[1]): return 'S'
+                if zero and st in ('Z', 'S'): return st
+                return st if st in ('D', 'U') or isinstance(st, tuple) else 'D'
+            return st
+        if node.k != 'call': return st
+        base = (node.calleeq or '').split('::')[-1]
+        args = node.ns('args')
+        if base == 'memset' and len(args) == 3 and is_buf(args[0]):
+            c = guards.const_of(args[2]); z = guards.const_of(args[1])
+            if z == 0 and c is not None and size is not None and c >= size: return 'Z'
+            return st if st == 'Z' and z == 0 else ('D' if st != 'U' else 'U')
+        if base in ('memcpy', 'memmove', 'strncpy') and len(args) == 3 and is_buf(args[0]):
+            return 'S' if st == 'Z' else (('C', args[2]) if st != 'U' else 'U')
+        if base == 'snprintf' and args and is_buf(args[0]): return 'S'
+        if base in ('strcpy',) and args and is_buf(args[0]): return 'S'
+        if base in ('strncat', 'strcat') and args and is_buf(args[0]): return st if st in ('S', 'Z') else st
+        hit = [i for i, a in enumerate(args) if is_buf(a)]
+        if not hit: return st
+        if base in READERS or (node.calleeq or '').startswith('std::basic_string'):
+            reads.append((node, st, g)); return st
+        if node.callee_in_root and depth < 4:
+            ts = [t for t in facts.resolve(node) if t.cfg is not None]
+            if len(ts) == 1 and hit[0] < len(ts[0].d['params']):
+                h = ts[0]; pd = ts[0].d['params'][hit[0]]
+                key = (h.name, pd['decl'], st if not isinstance(st, tuple) else 'D')
+                if key not in memo:
+                    memo[key] = None          # recursion guard
+                    memo[key] = _buffer_flow(facts, h, pd['decl'], key[2], size, memo, reads, depth + 1)
+                return memo[key] if memo[key] is not None else 'U'
+        prm = (node.params or [])
+        pt = prm[hit[0]] if hit[0] < len(prm) else ''
+        if pt.startswith('const '):
+            reads.append((node, st, g)); return st       # a function that only reads the characters
+        return 'U'
+
+    IN = {cfg.entry: entry}; OUT = {}
+    order = cfg.rpo()
+    changed = True; rounds = 0
+    while changed and rounds < 50:
+        changed = False; rounds += 1
+        for b in order:
+            if b != cfg.entry:
+                inn = None
+                for p_ in cfg.preds[b]:
+                    if p_ in OUT: inn = _join(inn, OUT[p_])
+                if inn is None: continue
+            else: inn = entry
+            cur = inn
+            for e in cfg.blocks[b].elems:
+                cur = transfer(e.node, cur)
+            if IN.get(b) != inn or OUT.get(b) != cur:
+                IN[b] = inn; OUT[b] = cur; changed = True
+    # final pass to collect the reads with the fixpoint states only
+    del reads[:]
+    for b in order:
+        if b not in IN: continue
+        cur = IN[b]
+        for e in cfg.blocks[b].elems: cur = transfer(e.node, cur)
+    out = None
+    for b in order:
+        if b in OUT and (b == cfg.exit or cfg.exit in [s for s in cfg.blocks[b].succs if s is not None]): out = _join(out, OUT[b])
+    return out if out is not None else entry
+
+
+def _arrayish(a):
+    a = guards.strip_casts(a)
+    while a is not None and a.k == 'binop' and a.op == '+': a = guards.strip_casts(a.n('lhs'))
+    if a is not None and a.k == 'unop' and a.op == '&': return True
+    return a is not None and a.k == 'ref' and '[' in (a.d.get('decltype') or a.type or '')
+
+
+def _as_ref(a):
+    a = guards.strip_casts(a)
+    return a if a is not None and a.k == 'ref' else None
+
+
+def _terminator_rules(facts, rep, f):
+    rep.rule('LO.6', 'what the string functions read: on every path, when strcmp / strlen / … (in get() or a helper) reads the local buffer it holds one NUL-terminated string on a zeroed background: '
+                     'a copy into the buffer is preceded by a zero-fill of the whole array (initialiser or memset) since the previous copy, or followed by a terminator store at the copied length')
+    bufs = [(v, n) for n in f.nodes() if n.k == 'decl' for v in n.vars if '[' in v['ctype'] and v['ctype'].split('[')[0].strip() in ('char', 'unsigned char', 'signed char')]
+    for v, dn in bufs:
+        try: size = int(v['ctype'][v['ctype'].index('[') + 1:v['ctype'].index(']')])
+        except Exception: size = None
+        reads = []; memo = {}
+        _buffer_flow(facts, f, v['decl'], 'D', size, memo, reads)
+        seen = set(); nread = 0
+        for node, st, g in reads:
+            k = (node.id, g.name, st if not isinstance(st, tuple) else 'C')
+            if k in seen: continue
+            seen.add(k); nread += 1
+            inst = f'{(node.calleeq or "").split("::")[-1]}() at line {node.line} reads {v["name"]}'
+            if st in ('Z', 'S'): rep.ok('LO.6', inst + ': one terminated string on a zeroed background', node.shortloc())
+            elif st == 'U': rep.inconclusive('LO.6', inst, node.shortloc(), 'the buffer was handed to code that is not followed before this read')
+            else:
+                why = (f'the last copy (`{st[1].text()[:40]}` bytes) went over earlier contents and no terminator was stored at that length' if isinstance(st, tuple) else 'on some path the last copy into the buffer went over earlier contents (no zero-fill of the whole array in between, no terminator stored at the copied length), or the buffer was never initialised')
+                rep.violation('LO.6', inst, node.shortloc(), why + ': a part that is shorter than what the buffer held before keeps the tail of the old contents (`eng_GB`: the country is compared as `GBg`), so a valid locale falls through to the fallback / an entry is matched by accident; with no zero behind the copy the read can also run off the end', key='LO.6|stale', fn=f.name)
+        if bufs and nread == 0: rep.inconclusive('LO.6', f'buffer {v["name"]}', dn.shortloc(), 'no string read of the buffer found')
